@@ -1443,7 +1443,7 @@ if not HAVE_NUMBA:
         return index
 
     def _find_closest_previous_times(told, tnew):
-        index = np.searchsorted(told, tnew) - 1
+        index = np.searchsorted(told, tnew, side="right") - 1
         index[index < 0] = 0
         return index
 
